@@ -148,6 +148,11 @@ func (h *NFSProcedureHandler) handleFsstat(body io.Reader, reply *RPCReply, auth
 	return reply, nil
 }
 
+// fsinfoCallOverhead is the room kept in a record for everything in a WRITE
+// call that is not file data: RPC header, credential and verifier at their
+// maximum length, file handle, offset, count, stable flag and length word.
+const fsinfoCallOverhead = 4096
+
 // handleFsinfo handles NFSPROC3_FSINFO - get filesystem info
 func (h *NFSProcedureHandler) handleFsinfo(body io.Reader, reply *RPCReply, authCtx *AuthContext) (*RPCReply, error) {
 	handleVal, err := xdrDecodeFileHandle(body)
@@ -173,12 +178,28 @@ func (h *NFSProcedureHandler) handleFsinfo(body io.Reader, reply *RPCReply, auth
 		return nfsErrorWithPostOp(reply, NFSERR_IO), nil
 	}
 
-	binary.Write(&buf, binary.BigEndian, uint32(1048576))       // rtmax
-	binary.Write(&buf, binary.BigEndian, uint32(65536))         // rtpref
-	binary.Write(&buf, binary.BigEndian, uint32(4096))          // rtmult
-	binary.Write(&buf, binary.BigEndian, uint32(1048576))       // wtmax
-	binary.Write(&buf, binary.BigEndian, uint32(65536))         // wtpref
-	binary.Write(&buf, binary.BigEndian, uint32(4096))          // wtmult
+	// The advertised maxima are what READ and WRITE really serve: the
+	// configured transfer size (WRITE refuses larger counts, READ clamps to
+	// it), and never so much that a WRITE call carrying wtmax bytes would not
+	// fit the RPC record size limit.
+	maxIO := uint32(DefaultMaxRecordSize - fsinfoCallOverhead)
+	if ts := h.server.handler.tuning.Load().TransferSize; ts > 0 && uint64(ts) < uint64(maxIO) {
+		maxIO = uint32(ts)
+	}
+	prefIO := uint32(65536)
+	if prefIO > maxIO {
+		prefIO = maxIO
+	}
+	multIO := uint32(4096)
+	if multIO > maxIO {
+		multIO = maxIO
+	}
+	binary.Write(&buf, binary.BigEndian, maxIO)                 // rtmax
+	binary.Write(&buf, binary.BigEndian, prefIO)                // rtpref
+	binary.Write(&buf, binary.BigEndian, multIO)                // rtmult
+	binary.Write(&buf, binary.BigEndian, maxIO)                 // wtmax
+	binary.Write(&buf, binary.BigEndian, prefIO)                // wtpref
+	binary.Write(&buf, binary.BigEndian, multIO)                // wtmult
 	binary.Write(&buf, binary.BigEndian, uint32(8192))          // dtpref (C1: uint32 not uint64)
 	binary.Write(&buf, binary.BigEndian, uint64(1099511627776)) // maxfilesize
 	binary.Write(&buf, binary.BigEndian, uint32(0))             // time_delta.seconds
